@@ -59,8 +59,12 @@ RES = Tuple(Union(NoneT, Str), Union(NoneT, Str), Int)
 STACK_SAME = "DIRSTACK == old(DIRSTACK)"
 contract(
     D + "cd", "C16", shards=2, params=dict(args=List(Str)), globals=G, config=CFG, returns=RES,
-    externals=dict(EXT, pushd=Ext(ret=RES, havoc=["DIRSTACK"], note="pushd -n -q $PWD under $AUTO_PUSHD (see pushd_fn)")),
-    requires={"in-step": SYNC, "no-P-flag": "len(args) == 0 or args[0] != '-P'"},
+    externals=dict(EXT, pushd=Ext(ret=RES, havoc=["DIRSTACK"], requires=["len(a0) == 3 and a0[0] == '-n' and a0[1] == '-q'"],
+                                  ensures=["DIRSTACK == ([os.path.expanduser(a0[2])] + old(DIRSTACK))[:XSH.env['DIRSTACK_SIZE']]"],
+                                  note="the pushd alias called as `pushd -n -q DIR`: ASSUMED to decode into pushd_fn(DIR, cd=False, quiet=True), whose verified clause "
+                                       "`stack-only-pushd-puts-the-directory-on-top` is this ensures (the ONLY way cd may grow the stack: a direct insert fails the call precondition / clause)")),
+    requires={"in-step": SYNC, "no-P-flag": "len(args) == 0 or args[0] != '-P'",
+              "the-stack-is-within-its-limit": "XSH.env['DIRSTACK_SIZE'] >= 1 and len(DIRSTACK) <= XSH.env['DIRSTACK_SIZE']"},
     modifies=["XSH.env", "DIRSTACK", "args", "CWD"], emits=["chdir", "on_chdir"],
     let={"rc": "result[2]"},
     ensures={
@@ -75,8 +79,12 @@ contract(
             'int(args[0][1:]) <= len(old(DIRSTACK)) and len(log("chdir")) == 1 and '
             'log("chdir")[0] == os.path.abspath(os.path.join(old(XSH.env[\'PWD\']), old(DIRSTACK)[int(args[0][1:]) - 1])))',
         "stack-untouched-without-auto-pushd": "implies(not old(XSH.env['AUTO_PUSHD']), %s)" % STACK_SAME,
+        "the-stack-stays-within-$DIRSTACK_SIZE-also-under-$AUTO_PUSHD": "len(DIRSTACK) <= XSH.env['DIRSTACK_SIZE']",
+        "under-$AUTO_PUSHD-a-successful-cd-pushes-the-directory-left-and-nothing-else":
+            "implies(old(XSH.env['AUTO_PUSHD']) and rc == 0 and len(log('chdir')) > 0, "
+            "DIRSTACK == ([os.path.expanduser(old(XSH.env['PWD']))] + old(DIRSTACK))[:XSH.env['DIRSTACK_SIZE']])",
     },
-    from_property="`cd`, `cd -`, `cd -N` ... a failed operation changes nothing and reports an error",
+    from_property="`cd`, `cd -`, `cd -N` ... a failed operation changes nothing and reports an error; holds at most $DIRSTACK_SIZE entries after every pushd (the implicit one of $AUTO_PUSHD included)",
 )
 
 
